@@ -328,3 +328,6 @@ func (r *Rec) Finish(t testing.TB) {
 		t.Fatalf("write shard file: %v", err)
 	}
 }
+
+// Pick3 returns one of three ints.
+func (r *Rand) Pick3(a, b, c int) int { return []int{a, b, c}[r.Intn(3)] }
